@@ -42,9 +42,15 @@ func init() {
 			"kill at an operation or after k bytes of a write, unreadable file), then restarts and a final healthy generation. Profile enum: for each seeded base scenario the " +
 			"fault-free run records the file-system trace; the scenario is then re-run once per fault point: every create/write/close of every chunk file x {kill, error} and for " +
 			"write every byte offset k in {0,1,n/2,n-1,n} plus random ones as short write, error after k bytes and kill after k bytes. Oracle: every chunk any consumer ever receives is " +
-			"byte-identical to what was produced; an intact readable file is delivered by the final healthy generation whatever damaged files sit beside it; nothing that no producer made is forwarded (temporary or foreign files); per generation without a kill, chunks that are gone plus zero-length files removed at recovery <= dropped_chunks_total (accounting clause). Non-trivial: a disk fault fired.",
-		Real: []string{"buffer/hybridbuffer", "util/files.go (WriteFileAt/ReadFileAt/UnlinkFileAt/StatFileAt)"},
-		Stub: []string{"disk (simfs) with per-operation fault hook and process-kill model", "producer", "scripted consumer"},
+			"byte-identical to what was produced; an intact readable file is delivered by the final healthy generation whatever damaged files sit beside it; nothing that no producer made is forwarded (temporary or foreign files); per generation without a kill, chunks that are gone plus zero-length files removed at recovery <= dropped_chunks_total (accounting clause). Non-trivial: a disk fault fired. " +
+			"Profile c04a (world A) is the end-to-end confirmation: the whole agent with the real serializer, chunk maker, Forward client and a strict fake upstream on the simulated disk; 1-3 seeded faults on chunk files " +
+			"(short write, error after k bytes - in half of the cases a disk that stays full for that generation -, errors at create/close/rename/open/read/unlink, kill of the agent process at an operation or after k bytes of a write; the killed process is started again 100 ms later), " +
+			"0-3 graceful restarts, in a quarter of the runs a zero-length file with a chunk's name and a stray temporary file planted before the last start; then a fault-free tail: one more graceful restart and a healthy upstream. " +
+			"Oracle there: every message the upstream receives decodes completely and its size option equals its contents; a chunk id transmitted twice carries the same contents; every delivered event equals the fresh-pipeline event of its own record; " +
+			"every chunk file the last generation found at its start is gone when it stops (acknowledged, or removed as corrupt) and the queue is drained within the liveness bound (damaged files do not block the others); no file with a chunk's name is left that does not decode; " +
+			"without a kill, records are missing only when dropped_chunks_total > 0.",
+		Real: []string{"buffer/hybridbuffer", "util/files.go (WriteFileAt/ReadFileAt/UnlinkFileAt/StatFileAt)", "profile c04a: the whole agent as run.Run assembles it (sysloginput, tcplistener, parser, transforms, orchestrator, pipelines, fluentdforward serializer/chunk maker/client, baseoutput, hybridbuffer, util/files.go, metrics)"},
+		Stub: []string{"disk (simfs) with per-operation fault hook and process-kill model", "producer", "scripted consumer", "profile c04a: syslog clients, fake Fluentd Forward upstream (fluentlib forwardprotocol + msgpack), network (simnet), driver that restarts a killed agent"},
 		Assumption: []string{
 			"crash model = process kill: every completed write(2) survives, the write in progress stops after k bytes, nothing else is lost; power loss is out of scope",
 			"a short write returns n < len with nil error, as write(2) does when the disk fills or a file-size limit is hit mid-call",
